@@ -105,6 +105,9 @@ type Config struct {
 	Expand func(cond ast.Expr) ast.Expr
 	// Unroll returns the elements of a range statement over a fixed list of expressions (nil: a loop).
 	Unroll func(rs *ast.RangeStmt) []ast.Expr
+	// Invariant: the conjunct of a loop condition keeps its value while the loop runs (it reads only
+	// state nothing in the loop, or in what the loop calls, assigns); nil = boolean locals only.
+	Invariant func(conjunct ast.Expr, loop *ast.ForStmt) bool
 	MaxPaths  int
 	MaxInline int
 }
@@ -567,7 +570,7 @@ func (e *enumerator) stmt(s ast.Stmt, p Path, depth int, k kont) {
 					if conj := flattenAnd(v.Cond); len(conj) > 1 {
 						var rest []ast.Expr
 						for _, cj := range conj {
-							if !e.invariantFlag(cj, v) {
+							if !e.invariantFlag(cj, v) && !(e.c.Invariant != nil && e.c.Invariant(cj, v)) {
 								rest = append(rest, cj)
 							}
 						}
